@@ -601,6 +601,24 @@ template<class C, class K, class V, bool ORD> struct Engine
 				sl.c.reset(Fresh<C, ORD>::make(r, c));
 				sl.m.clear();
 			} else if (w < 93) eq_slots(sl, s[r.below(NS)], OrdTag());
+			else if (w < 95 && !sl.m.empty()) {
+				// set(key, value) where value is a reference to an entry of the same map: the stored value is the one the source held before the call
+				MK src = present_key(sl), k = pick(sl, 0.3);
+				MV v = sl.m[src];
+				bool was = sl.m.count(k) != 0;
+				last = "set-own-value";
+				c.op("set(" + sk(k) + ", value of " + sk(src) + " by reference)");
+				const V* pv = sl.c->find(TT<K>::mk(src));
+				if (!pv) bad("find-missing", "find(" + sk(src) + ") is null for a present key");
+				else {
+					int nb0 = buckets(*sl.c);
+					sl.c->set(TT<K>::mk(k), *pv);
+					sl.m[k] = v;
+					if (!was) n_ins++;
+					note_growth(sl, nb0);
+					c.count("op.set-with-reference-to-own-value");
+				}
+			}
 			else { full(sl, (int)r.below(3)); }
 			light(sl);
 			if (--untilfull <= 0) {
